@@ -6,6 +6,7 @@ use vstd::prelude::*;
 use vstd::std_specs::iter::IteratorSpec;
 use std::marker::PhantomData;
 use std::convert::TryInto;
+use std::collections::HashMap;
 
 verus! {
 
@@ -19,6 +20,7 @@ use GDErrorKind::*;
 
 /*@ include path=prelude.rs @*/
 /*@ include path=std_assumed.rs @*/
+/*@ include path=alloc_model.rs @*/
 
 /*@ item file=crates/lib/src/buffer.rs kind=struct name=Buffer @*/
 
@@ -69,7 +71,8 @@ spec {
         final(self).bytes() == old(self).bytes(),
         r is Ok <==> 0 <= old(self).pos() + offset <= old(self).bytes().len(),
         r is Ok ==> final(self).pos() == old(self).pos() + offset,
-        r is Err ==> final(self).pos() == old(self).pos() && r->Err_0.kind == PacketBad,
+        r is Ok && offset >= 0 ==> final(self).rest() == old(self).rest().subrange(offset as int, old(self).rest().len() as int),
+        r is Err ==> final(self).pos() == old(self).pos() && final(self).rest() == old(self).rest() && r->Err_0.kind == PacketBad,
 }
 @*/
 /*@ fn file=crates/lib/src/buffer.rs impl="impl<'a, B: ByteOrder> Buffer<'a, B>" name=read
@@ -81,7 +84,9 @@ spec {
         final(self).bytes() == old(self).bytes(),
         r is Ok <==> old(self).rest().len() >= T::width(),
         r is Ok ==> final(self).pos() == old(self).pos() + T::width()
+                 && final(self).rest() == old(self).rest().subrange(T::width() as int, old(self).rest().len() as int)
                  && r->Ok_0 == T::decode(old(self).rest().subrange(0, T::width() as int)),
+        r is Err ==> final(self).rest() == old(self).rest(),
         r is Err ==> final(self).pos() == old(self).pos() && r->Err_0.kind == PacketUnderflow,
 }
 body_start {
@@ -101,6 +106,7 @@ spec {
         old(self).pos() <= final(self).pos(),
         r is Err ==> final(self).pos() == old(self).pos(),
         r is Ok ==> final(self).pos() == old(self).pos() + D::consumed(old(self).rest(), until.unwrap_or(D::DELIMITER))
+                 && final(self).rest() == old(self).rest().subrange(D::consumed(old(self).rest(), until.unwrap_or(D::DELIMITER)) as int, old(self).rest().len() as int)
                  && r->Ok_0@ == D::text(old(self).rest(), until.unwrap_or(D::DELIMITER)),
         r is Ok <==> D::decodes(old(self).rest(), until.unwrap_or(D::DELIMITER)),
 }
@@ -344,11 +350,12 @@ impl<B: ByteOrder> StringDecoder for Utf16Decoder<B> {
         utf16_valid(u16_units(B::is_le(), data.subrange(0, 2 * first_pair_index(data, d@))))
     }
 /*@ fn file=crates/lib/src/buffer.rs impl="impl<B: ByteOrder> StringDecoder for Utf16Decoder<B>" name=decode_string
-use R8:chunks2_position_eq
+use R8:chunks2_position_eq R17:data@.len()
 closure "|pos| pos * 2" {
     |pos: usize| -> (ret: usize) requires pos * 2 <= usize::MAX ensures ret == pos * 2 { pos * 2 }
 }
 body_start {
+    broadcast use group_alloc;
     proof { lemma_first_pair_index(data@, delimiter@); }
 }
 after "B::read_u16_into" {
